@@ -144,6 +144,7 @@ type BMC struct {
 	DCMICaps           map[uint8][]byte
 	DCMISensors        map[uint8][]uint16 // entity ID -> record IDs
 	DCMIPageSize       int                // max record IDs per Get DCMI Sensor Info response
+	DCMIOvercount      int                // added to the instance total the BMC reports (it then serves fewer than it announces)
 
 	SDRs                []SDRRecord
 	AdditionTS, EraseTS uint32
